@@ -229,6 +229,15 @@ let judge_unit ins outs : verdict =
                   let capv = if s.shaping then iz (List.assoc rg c.caps) else -1 in
                   let na = match s.next with Some (i, b) -> Printf.sprintf "n%d.%s" (int_of_nat i) (dec_of_z b) | None -> "n-" in
                   let want = Printf.sprintf "o%d:%d:%s" (if s.shaping then 1 else 0) capv na in
+                  (* throttle clause, initial bandwidth: a range response that starts inside a throttle
+                     interval must have that throttle's bandwidth in force when the context is set *)
+                  (match split ':' o with
+                   | ["o1"; cp; _] when s.shaping && v ->
+                       if not (ok_chunk_bw thr rs (z_of_dec cp)) then
+                         raise (Fail ("throttle_bandwidth",
+                                      Printf.sprintf "a response whose range starts at %s inside a throttle of %s bytes per interval has a bucket of capacity %s when its context is set"
+                                        (dec_of_z rs) (match throttle_at thr rs with Some b -> dec_of_z b | None -> "-") cp))
+                   | _ -> ());
                   if want <> o then raise (Dis ("set-context want=" ^ want ^ " got=" ^ o));
                   c.resp <- Some { data = []; delivered = []; closed = false; gaps = []; r_acts = acts; r_rs = rs; r_hl = hl;
                                    r_checkable = s.shaping && v && !nconn = 1; dirty = false }
@@ -519,6 +528,17 @@ let judge_integration ins outs : verdict =
              let ((_, evs), r) = write (fun _ -> (huge, huge)) s data in
              let total = iz (delays_before_last_byte evs) in
              let el = ios (tl1 (tl1 el)) in
+             (* throttle clause at the proxy layer: the body bytes delivered inside the throttle the range
+                starts in cannot pass faster than its bandwidth allows *)
+             (match List.filter (fun t -> ok_chunk_bw [t] rs' t.t_bw && throttle_at [t] rs' <> None) sh.sh_thr with
+              | t :: _ ->
+                  let nbody = List.length delivered - hl in
+                  let inside = bytes_inside t.t_start t.t_end rs' (zi nbody) in
+                  let eff = if iz sh.sh_maxbw < iz t.t_bw then sh.sh_maxbw else t.t_bw in
+                  if not (ok_rate eff inside (zi el) (zi 150000)) then
+                    raise (Fail ("throttle_rate", Printf.sprintf "the range starts at %s inside the throttle %s-%s: %s body bytes at %s bytes per drain interval took only %dus"
+                                   (dec_of_z rs') (dec_of_z t.t_start) (dec_of_z t.t_end) (dec_of_z inside) (dec_of_z eff) el))
+              | [] -> ());
              if not (ok_total_delay evs (zi el)) then
                raise (Fail ("halt_delay_total", Printf.sprintf "response took %dus, configured halts and latency add up to %dus" el total));
              if emitted evs <> delivered then raise (Dis "delivered-bytes-differ-from-model");
